@@ -409,6 +409,99 @@ def type_argument(out):
     out.components['type argument (implementation against the statement)'] = {'cases': n}
 
 
+def observed_during_check(out):
+    """While a value is being checked the message must still hold what it held before: the value is an integer object that looks at the
+    message whenever it is compared, converted or hashed (what another thread, or re-entrant code, could see at that moment).  Also:
+    the same text / dict / value given twice must be judged twice (a first rejection must not make a second call accept)."""
+    import mido
+    n = 0
+    seen = []
+
+    def spy_class(msg_ref, attr):
+        class Spy(int):
+            def _look(self):
+                m = msg_ref[0]
+                if m is not None:
+                    seen.append(vars(m).get(attr))
+
+            def __le__(self, o):
+                self._look(); return int.__le__(self, o)
+
+            def __ge__(self, o):
+                self._look(); return int.__ge__(self, o)
+
+            def __lt__(self, o):
+                self._look(); return int.__lt__(self, o)
+
+            def __gt__(self, o):
+                self._look(); return int.__gt__(self, o)
+
+            def __eq__(self, o):
+                self._look(); return int.__eq__(self, o)
+
+            def __hash__(self):
+                self._look(); return int.__hash__(self)
+
+            def __index__(self):
+                self._look(); return int.__index__(self)
+        return Spy
+    for typ, attr, old, bad in (('note_on', 'note', 5, 300), ('note_on', 'velocity', 7, -1), ('control_change', 'value', 9, 128), ('pitchwheel', 'pitch', 0, 9000),
+                                ('songpos', 'pos', 3, 20000), ('program_change', 'channel', 2, 16)):
+        for good in (False, True):
+            n += 1
+            ref = [None]
+            m = mido.Message(typ, **{attr: old})
+            ref[0] = m
+            del seen[:]
+            val = spy_class(ref, attr)(old + 1 if good else bad)
+            try:
+                setattr(m, attr, val)
+                accepted = True
+            except (ValueError, TypeError):
+                accepted = False
+            if accepted != good:
+                out.failures.append(('spy-value', '%s.%s = %r (an int subclass) was %s' % (typ, attr, int(val), 'accepted' if accepted else 'rejected'),
+                                     {'component': 'observed-during-check', 'type': typ, 'attr': attr}))
+            elif any(v != old for v in seen) and not good:
+                out.failures.append(('visible-before-checked', 'while %s.%s = %r was being checked (and then rejected) the message already held %r' % (typ, attr, int(val), [v for v in seen if v != old][0]),
+                                     {'component': 'observed-during-check', 'type': typ, 'attr': attr}))
+            elif not accepted and getattr(m, attr) != old:
+                out.failures.append(('rejected-but-changed', 'a rejected assignment %s.%s = %r left %r' % (typ, attr, int(val), getattr(m, attr)), {'component': 'observed-during-check'}))
+    # judged every time: a rejected text / dict / keyword value, given again, is rejected again; an accepted one gives an equal message again
+    probes = [('from_str', lambda: mido.Message.from_str('note_on note=128')), ('from_str', lambda: mido.Message.from_str('note_on channel=16')),
+              ('from_str', lambda: mido.Message.from_str('clock note=1')), ('from_str', lambda: mido.Message.from_str('sysex data=(1,128)')),
+              ('from_dict', lambda: mido.Message.from_dict({'type': 'note_on', 'note': 200})), ('ctor', lambda: mido.Message('note_on', note=64.0)),
+              ('ctor', lambda: mido.Message('note_on', velocity=True + 127)), ('copy', lambda: mido.Message('note_on').copy(note=1.0)),
+              ('ctor', lambda: mido.Message('pitchwheel', pitch=8192)), ('parse_string', lambda: mido.parse_string('songpos pos=16384'))]
+    mido.Message('note_on', note=64, velocity=64); mido.Message('note_on', note=1); mido.Message.from_str('note_on note=127')      # the int twins, accepted first
+    for label, call in probes:
+        for attempt in (1, 2, 3):
+            n += 1
+            try:
+                got = call()
+                out.failures.append(('accepted-on-repeat' if attempt > 1 else 'accepted', '%s: attempt %d returned %r (%r)' % (label, attempt, got, vars(got)),
+                                     {'component': 'observed-during-check', 'probe': label, 'attempt': attempt}))
+                break
+            except (ValueError, TypeError, AttributeError):
+                pass
+    # the set of attributes never changes - not by using a (frozen) message as a dictionary key either
+    from mido.frozen import freeze_message, thaw_message
+    for m in (mido.Message('note_on', note=3, time=2), mido.Message('sysex', data=[1, 2]), mido.Message('clock'), mido.Message('pitchwheel', pitch=-5, time=0.5)):
+        n += 1
+        try:
+            f = freeze_message(m)
+            names = sorted(vars(f))
+            hash(f); {f: 1}
+            t = thaw_message(f)
+            if sorted(vars(f)) != names or sorted(vars(t)) != sorted(vars(m)) or not (t == m) or not (mido.Message.from_dict(f.dict()) == m):
+                out.failures.append(('attributes-changed-by-hash', 'after hash() the frozen form of %r has the attributes %r, its thawed form %r' % (m, sorted(vars(f)), sorted(vars(t))),
+                                     {'component': 'observed-during-check', 'message': repr(m)}))
+        except Exception as e:  # noqa: BLE001
+            out.failures.append(('attributes-changed-by-hash', 'hashing the frozen form of %r and using it afterwards raised %r' % (m, e), {'component': 'observed-during-check'}))
+    out.evaluations += n
+    out.components['values that observe the message while being checked; repeated judgements (implementation against the statement)'] = {'cases': n}
+
+
 def run(out):
     rng = random.Random(out.seed)
     ctor_cases = []
@@ -463,6 +556,7 @@ def run(out):
     for tag, rec in core.pmap(job, jobs):
         core.merge_into(out, rec, tag)
     type_argument(out)
+    observed_during_check(out)
     out.rule = ('constructor / from_dict / from_str with every attribute (own, foreign, unknown) of every type at min-1, min, min+1, mid, max-1, '
                 'max, max+1, +-2^63 and float, str, None, opaque object, bool, list/tuple/generator, bytes/bytearray values, plus random '
                 'keyword sets; histories of 1-30 operations (assignment, deletion, copy with overrides incl. type, data += ...) on one '
